@@ -94,7 +94,7 @@ with y_rv (h : heap) (e : env) (x : rv) {struct x} : option slot :=
       end
   | RCap x =>
       sx <- y_rv h e x ;; v <- slot_get h sx ;;
-      match v with VSlice _ _ _ cap => Some (SVal (VInt (Z.of_nat cap))) | _ => None end
+      match v with VSlice _ _ _ cap => Some (SVal (VInt (Z.of_nat cap))) | VNil => Some (SVal (VInt 0%Z)) | _ => None end
   | RSlice b lo hi mx =>                                      (* slice / slice0: data[i] = a.Slice3(..) *)
       sb <- y_rv h e b ;; bv <- slot_get h sb ;;
       sv <- slice_of h bv ;;
@@ -250,6 +250,7 @@ Definition y_range_len (h : heap) (rk : rkind) (shadow : slot) : option nat :=
   v <- slot_get h shadow ;;
   match rk, v with
   | RkSlice, VSlice _ _ len _ => Some len
+  | RkSlice, VNil => Some 0
   | RkSlice, _ => None
   | _, VArr es => Some (length es)
   | _, _ => None
